@@ -519,7 +519,7 @@ func (vc *VC) frameObligations(kindPfx string, entry, exit *State, guard Term, m
 			var cover []Term
 			for _, m := range mods {
 				if m.key == k {
-					cover = append(cover, Eq(o, m.obj))
+					cover = append(cover, And(m.condOrTrue(), Eq(o, m.obj)))
 				}
 			}
 			cond = Implies(And(pre, Not(Or(cover...))), Eq(Select(h1, o), Select(h0, o)))
@@ -531,9 +531,9 @@ func (vc *VC) frameObligations(kindPfx string, entry, exit *State, guard Term, m
 					continue
 				}
 				if m.whole {
-					cover = append(cover, Eq(o, m.obj))
+					cover = append(cover, And(m.condOrTrue(), Eq(o, m.obj)))
 				} else {
-					cover = append(cover, And(Eq(o, m.obj), Le(m.lo, j), Lt(j, m.hi)))
+					cover = append(cover, And(m.condOrTrue(), Eq(o, m.obj), Le(m.lo, j), Lt(j, m.hi)))
 				}
 			}
 			cond = Implies(And(pre, Not(Or(cover...))), Eq(Select(Select(h1, o), j), Select(Select(h0, o), j)))
